@@ -234,6 +234,15 @@ func init() {
 		iv := r[len(r)-1].(IfaceV)
 		return ret(f, x, Sym{Bool: true, S: ifaceNilTerm(iv)})
 	})
+	reg(vp+"StubMonotone", func(e *Exec, s *State, f *Frame, x *ssa.Call, a []Val) ([]*State, bool) {
+		ai, _ := asConst(a[1].(Sym).S)
+		ri, _ := asConst(a[2].(Sym).S)
+		e.mu.Lock()
+		e.stubs[a[0].(StrV).S] = true
+		e.stubMono[a[0].(StrV).S] = [2]int{int(ai.Int64()), int(ri.Int64())}
+		e.mu.Unlock()
+		return nil, false
+	})
 	reg(vp+"Note", func(e *Exec, s *State, f *Frame, x *ssa.Call, a []Val) ([]*State, bool) {
 		e.mu.Lock()
 		e.notes[a[0].(StrV).S] = true
